@@ -109,10 +109,15 @@ def autosort(identifiers):
 
 
 @functools.lru_cache()
+def _available():
+    av = [pp.identifier for pp in PREPROCESSORS]
+    return tuple(autosort(av))
+
+
 def available():
     """Return list of available preprocessor identifiers"""
-    av = [pp.identifier for pp in PREPROCESSORS]
-    return autosort(av)
+    # (a new list for every caller; the cached sequence is not handed out)
+    return list(_available())
 
 
 def check_order(identifiers):
